@@ -47,6 +47,9 @@ def setup():
     pools.install()
 
 
+NEXTFAB = re.compile(rb"FAB \(\(8, \(64 11 52 0 1 12 0 1023\)\),\(8, \(8 7 6 5 4 3 2 1\)\)\)\(\([-\d,]+\) \([-\d,]+\) \([\d,]+\)\) \d+\n")
+
+
 def locate(fpath, lo, hi):
     """payload (bytes, ncomp) of the unique FAB in fpath whose header names [lo,hi]"""
     with open(fpath, "rb") as f:
@@ -62,7 +65,12 @@ def locate(fpath, lo, hi):
     pay = raw[mm.end():mm.end() + n]
     if len(pay) != n:
         return None
-    return pay, nc
+    # the next FAB header of the file must not begin inside these n bytes (a FAB that lost bytes: what
+    # would be read as its last values is the text of the following header)
+    nxt = NEXTFAB.search(raw, mm.end())
+    if nxt is not None and nxt.start() < mm.end() + n:
+        return pay, nc, True
+    return pay, nc, False
 
 
 def run_case(case, work, rec):
@@ -149,7 +157,12 @@ def run_case(case, work, rec):
                 if loc is None:
                     rec.undecided("FAB not uniquely locatable")
                     return
-                pay, nc = loc
+                pay, nc, short = loc
+                if short:
+                    rec.violation(f"validation accepted a binary file in which a FAB is shorter than its header "
+                                  f"declares (the next FAB header begins inside its data): {descr}", key=key,
+                                  witness={"mutations": muts, "level": lv, "box": bi, "file": fn})
+                    return
                 shape = [b - a + 1 for a, b in zip(lo, hi)]
                 exps[(lv, bi)] = np.frombuffer(pay, "<f8").reshape(shape + [nc], order="F") if nc == nf else None
                 for fd, fsel in (("[:]", slice(None)), (f"[{nf - 1}]", nf - 1)):
